@@ -683,6 +683,13 @@ class Walker:
 
     def bind(self, target, value, st, node, aug=None):
         if isinstance(target, ast.Name):
+            if isinstance(value, Rat) and (value.single_atom() or '').startswith(('np.zeros(', 'np.ones(', 'np.full(',
+                                                                                  'np.empty(')) and aug is None:
+                # freshly allocated arrays stand for themselves (reads are spelled NAME[...])
+                defs = dict(st.env.get('__defs__', {}))
+                defs[target.id] = value.single_atom()
+                st.env['__defs__'] = defs
+                value = Rat.atom(target.id)
             st.env[target.id] = value
             if self.assign_events:
                 self.seq += 1
